@@ -527,6 +527,121 @@ func (m *cacheModel) opMatchNodes(step int, st scn.Step) string {
 	return got.Key()
 }
 
+// opPerNode: ONE compiled expression is evaluated from one element of the
+// document after the other, as a caller that compiled "matches(@k, ...)" once
+// and applies it to every record does; the operands (subject attribute,
+// subject string value, pattern attribute) differ from node to node. Each
+// answer is compared with Go's regexp applied to that node's operands.
+func (m *cacheModel) opPerNode(step int, st scn.Step) string {
+	x := m.x
+	if len(x.docs) == 0 || !quotable(st.K, st.R) {
+		return "unjudged"
+	}
+	var text string
+	switch st.N % 5 {
+	case 0:
+		text = "matches(@k, " + q(st.K) + ")"
+	case 1:
+		text = "matches(., " + q(st.K) + ")"
+	case 2:
+		text = "replace(@k, string(@p), " + q(st.R) + ")"
+	case 3:
+		text = "replace(., " + q(st.K) + ", " + q(st.R) + ")"
+	default:
+		text = "matches(@k, string(@p))" // (a node-set where the pattern belongs is refused by the engine: outside the statement)
+	}
+	constRe, cerr := regexp.Compile(st.K)
+	ex, co := compile(text)
+	if ex == nil {
+		if cerr != nil && (st.N%5 == 0 || st.N%5 == 1) && co.Kind == "cerr" {
+			return "rejected" // I4 is judged by the compilebad / matches steps
+		}
+		if cerr != nil && (st.N%5 == 0 || st.N%5 == 1) {
+			x.viol("regex-precheck", "regex-precheck:panic", fmt.Sprintf("Compile(%q) panicked (%s) instead of returning an error for a constant pattern Go's regexp rejects", text, clip(co.Key())), step)
+			return "panicked"
+		}
+		x.viol("regex-compile", "regex-compile", fmt.Sprintf("Compile(%q) failed: %s", text, co.Key()), step)
+		return "cerr"
+	}
+	doc := x.docs[0]
+	var els []*world.Node
+	for _, n := range doc.Nodes {
+		if n.Kind == xpath.ElementNode {
+			els = append(els, n)
+		}
+	}
+	if st.C%2 == 1 {
+		for i, j := 0, len(els)-1; i < j; i, j = i+1, j-1 {
+			els[i], els[j] = els[j], els[i]
+		}
+	}
+	attr := func(n *world.Node, local string) *world.Node {
+		for _, a := range n.Attrs {
+			if a.Local == local && a.Prefix == "" {
+				return a
+			}
+		}
+		return nil
+	}
+	judged := 0
+	for _, n := range els {
+		got, it := evaluate(ex, world.NewNav(doc, n.ID, -1))
+		if it != nil {
+			got = drain(it, 0)
+		}
+		if got.Aborted() {
+			kind := "no-progress"
+			if strings.Contains(got.V, "deadlock") {
+				kind = "deadlock"
+				x.stop = true
+			}
+			x.viol(kind, kind+":regex", fmt.Sprintf("Evaluate(%q) from node %d: %s", text, n.ID, got.Key()), step)
+			return "abort"
+		}
+		// this node's operands
+		re, rerr := constRe, cerr
+		subject := n.StringValue()
+		if st.N%5 == 0 || st.N%5 == 2 || st.N%5 == 4 {
+			k := attr(n, "k")
+			if k == nil {
+				continue // an empty node-set as subject: executed, not judged (DESIGN 5.4)
+			}
+			subject = k.Data
+		}
+		if st.N%5 == 2 || st.N%5 == 4 {
+			p := attr(n, "p")
+			if p == nil {
+				continue
+			}
+			re, rerr = regexp.Compile(p.Data)
+			if rerr == nil {
+				m.engineUse(step, p.Data)
+			}
+		} else if rerr == nil {
+			m.engineUse(step, st.K)
+		}
+		if rerr != nil {
+			continue // a pattern only known at run time that does not compile: nothing promised
+		}
+		var want Outcome
+		if st.N%5 == 2 || st.N%5 == 3 {
+			if !replInDomain(st.R, re.NumSubexp()) {
+				continue
+			}
+			want = valueOutcome(re.ReplaceAllString(subject, expandRepl(st.R)))
+		} else {
+			want = valueOutcome(re.MatchString(subject))
+		}
+		judged++
+		if got.Key() != want.Key() {
+			x.viol("regex-result", "regex-result:per-node", fmt.Sprintf("Evaluate(%q) from node %d (subject %q, pattern %q) = %s, Go regexp gives %s", text, n.ID, subject, re.String(), clip(got.Key()), clip(want.Key())), step)
+			return "mismatch"
+		}
+	}
+	x.res.Stats.Probes["pernode_judged"] += judged
+	return fmt.Sprintf("judged %d of %d", judged, len(els))
+}
+
 // opNoise evaluates an expression that uses the builder pool and / or ends in
 // one of the package's own panics half-way. Its result is not judged: it is
 // history for the regex operations that follow.
@@ -634,6 +749,9 @@ func (x *exec) histC16() {
 		case "matchnodes":
 			r := m.opMatchNodes(i, st)
 			x.tracef("step %d matchnodes variant %d -> %s", i, st.N, r)
+		case "pernode":
+			r := m.opPerNode(i, st)
+			x.tracef("step %d pernode variant %d p=%q r=%q -> %s", i, st.N, st.K, st.R, r)
 		case "matches", "replace", "compilebad":
 			r := m.opRegex(i, st, -1)
 			x.tracef("step %d %s s=%q p=%q r=%q src=%s -> %s", i, st.Op, st.S, st.K, st.R, st.Src, r)
